@@ -10,9 +10,9 @@
 
    TWO statements of the property are REFUTED on the faithful model, with witnesses that the real
    code reproduces (see C04_run_confined_refuted and C04_step_confined_refuted below). *)
-From Coq Require Import List ZArith NArith Bool.
+From Coq Require Import List ZArith NArith Bool Lia.
 From LA Require Import Base.Val Gen.FsSecConsts FS.SanitizeDefs FS.SanitizeProofs FS.FsModel FS.FsLemmas
-                       FS.RestoreDefs FS.FsSecProofs FS.FsSecRun.
+                       FS.RestoreDefs FS.FsSecProofs FS.FsSecRun FS.FsSecWitness.
 Import ListNotations.
 Local Open Scope N_scope.
 
@@ -81,3 +81,137 @@ Theorem C04_step_confined_partial : forall T O fl e st rr st',
   st_umask st' = st_umask st /\ Inv T O st'.
 Proof. exact restore_confined. Qed.
 Print Assumptions C04_step_confined_partial.
+
+(* (d') any number of entries (before close): by induction with the invariant of (d) *)
+Theorem C04_entries_confined_partial : forall T O fl es st l st',
+  secure fl -> Forall hl_ok es -> Forall (short fl) es -> Inv T O st ->
+  run_entries fl st es = (l, st') ->
+  prune T (root (st_fs st')) = prune T (root (st_fs st)) /\
+  st_umask st' = st_umask st /\ Inv T O st'.
+Proof. exact run_entries_confined. Qed.
+Print Assumptions C04_entries_confined_partial.
+
+(* ------------------------------------------------------------------------------------------ *)
+(* (e) THE HEADLINE IS FALSE of the faithful model (and of the code: props/C04.py replays this
+   history through the real archive_write_disk and through bsdtar -x, key
+   C04:fixup:intermediate-symlink).  History, extracted into an empty target with
+   SECURE_SYMLINKS|SECURE_NODOTDOT|SECURE_NOABSOLUTEPATHS|PERM|TIME:
+       dir  "d/sub"  mode 0777 mtime 12345      (registers a deferred fix-up for "d/sub")
+       dir  "e"
+       hard link "d/sub" -> "e"                 (EEXIST -> rmdir d/sub -> link to a directory fails:
+                                                 entry refused, but d/sub is gone and d is empty)
+       symlink "d" -> "../outside"              (rmdir d, symlink planted)
+   At close the fix-up opens "d/sub" with O_NOFOLLOW|O_DIRECTORY: only the LAST component is
+   protected, "d" is followed, and outside/sub is re-moded to 0777 and re-timed to 12345. *)
+Theorem C04_run_confined_refuted :
+  CLOSE_CHECKS_FIXUP_PATH = false ->
+  exists fl st es,
+    secure fl /\ Inv [n_target] Oc st /\ Forall hl_ok es /\ Forall (short fl) es /\
+    prune [n_target] (root (st_fs (snd (run_history fl st es)))) <> prune [n_target] (root (st_fs st)).
+Proof.
+  intros Hflag. try (vm_compute in Hflag; discriminate Hflag).   (* vacuous once the source has the fix *)
+  exists (SECF + (EXTRACT_PERM + EXTRACT_TIME)), (st_world 18 []), f1_history.
+  split; [unfold secure; repeat split; reflexivity|]. split; [apply world_inv|].
+  split; [repeat (apply Forall_cons; [intros H; first [reflexivity | vm_compute in H; discriminate H]|]); apply Forall_nil|].
+  split.
+  - repeat (apply Forall_cons; [intros q H; vm_compute in H; injection H as <-; apply Nat.ltb_lt; vm_compute; reflexivity|]);
+      apply Forall_nil.
+  - unfold run_history, close_fixups_cur. rewrite Hflag.
+    intros H. apply (f_equal (get [n_outside; n_sub])) in H. vm_compute in H. discriminate.
+Qed.
+Print Assumptions C04_run_confined_refuted.
+
+(* ... and TRUE as soon as the close loop walks the fix-up name (the proposed fix
+   fixes/C04-fixup-intermediate-symlink.diff: with SECURE_SYMLINKS the name is cleaned and checked
+   by check_symlinks_fsobj before it is opened): every history (same exceptions as (d)), then
+   close.  First for the model of the fixed loop, then for [run_history] = the model of whatever
+   the source tree has (CLOSE_CHECKS_FIXUP_PATH is regenerated from the source on every run). *)
+Theorem C04_run_confined_fixed_close : forall T O fl es st l st',
+  secure fl -> Forall hl_ok es -> Forall (short fl) es -> Inv T O st ->
+  run_history_checked fl st es = (l, st') ->
+  prune T (root (st_fs st')) = prune T (root (st_fs st)) /\
+  st_umask st' = st_umask st /\ Inv T O st'.
+Proof. exact run_checked_confined. Qed.
+Print Assumptions C04_run_confined_fixed_close.
+
+Theorem C04_run_confined : CLOSE_CHECKS_FIXUP_PATH = true ->
+  forall T O fl es st l st',
+  secure fl -> Forall hl_ok es -> Forall (short fl) es -> Inv T O st ->
+  run_history fl st es = (l, st') ->
+  prune T (root (st_fs st')) = prune T (root (st_fs st)) /\
+  st_umask st' = st_umask st /\ Inv T O st'.
+Proof.
+  intros Hflag T O fl es st l st' H1 H2 H3 H4 H5. unfold run_history, close_fixups_cur in H5. rewrite Hflag in H5.
+  exact (run_checked_confined T O fl es st l st' H1 H2 H3 H4 H5).
+Qed.
+Print Assumptions C04_run_confined.
+
+(* the fixed close refuses the witness *)
+Example C04_fixed_close_on_witness :
+  prune [n_target] (root (st_fs (snd (run_history_checked (SECF + (EXTRACT_PERM + EXTRACT_TIME)) (st_world 18 []) f1_history))))
+  = prune [n_target] (root (st_fs (st_world 18 []))).
+Proof. vm_compute. reflexivity. Qed.
+
+(* ------------------------------------------------------------------------------------------ *)
+(* (d) WITHOUT its exception is FALSE too: a hard-link entry that carries data (pax, cpio newc)
+   whose target is a symlink.  linkat() links the symlink itself (allowed), lstat says "not a
+   regular file" so nothing is opened, a->todo keeps TODO_MODE, and set_mode() calls chmod(2) on
+   the new name - which follows the symlink.  Target contains the symlink  s -> /outside/cfile ;
+   entry: hard link "h" -> "s", mode 0777, with data.  outside/cfile becomes 0777.
+   (key C04:hardlink-data:chmod-follows-symlink, reproduced on the real code) *)
+Theorem C04_step_confined_refuted :
+  HARDLINK_DATA_NONREG_CLEARS_TODO = false ->
+  exists fl st e,
+    secure fl /\ Inv [n_target] Oc st /\ short fl e /\
+    prune [n_target] (root (st_fs (snd (restore fl st e)))) <> prune [n_target] (root (st_fs st)).
+Proof.
+  intros Hflag. try (vm_compute in Hflag; discriminate Hflag).   (* vacuous once the source has the fix *)
+  exists (SECF + EXTRACT_PERM), (st_world 18 f2_pre), f2_entry.
+  split; [unfold secure; repeat split; reflexivity|]. split; [apply world2_inv|]. split.
+  - intros q H. vm_compute in H. injection H as <-. apply Nat.ltb_lt. vm_compute. reflexivity.
+  - intros H. apply (f_equal (get [n_outside; n_cfile])) in H. vm_compute in H. discriminate.
+Qed.
+Print Assumptions C04_step_confined_refuted.
+
+(* ------------------------------------------------------------------------------------------ *)
+(* (f) refused entries leave everything as it was *)
+Theorem C04_refused_by_sanitiser_noop : forall fl st e,
+  (forall q, cleanup_pathname fl (e_path e) <> ClOk q) -> restore fl st e = ((SFailed, SOk), st).
+Proof. exact refused_sanitiser_noop. Qed.
+Print Assumptions C04_refused_by_sanitiser_noop.
+
+(* at the symlink stage this needs UNLINK to be off: with UNLINK check_symlinks removes the
+   intervening symlinks it meets (inside the target, see (c)) before it may still fail *)
+Theorem C04_refused_by_symlink_check_noop : forall fl st e q s fs1,
+  has fl EXTRACT_SECURE_SYMLINKS = true -> has fl EXTRACT_UNLINK = false ->
+  cleanup_pathname fl (e_path e) = ClOk q ->
+  ((e_type e =? T_HARDLINK)%N && str_eqb q (e_link e)) = false ->
+  check_symlinks fl false (st_fs st) (st_cwd st) (parse q) = (s, fs1) -> s <> SOk ->
+  restore fl st e = ((s, SOk), st).
+Proof. exact refused_symlink_stage_noop. Qed.
+Print Assumptions C04_refused_by_symlink_check_noop.
+
+(* ------------------------------------------------------------------------------------------ *)
+(* non-vacuity + the classic attack: the target contains  x -> ../outside ; the entry  x/evil  is
+   refused (ARCHIVE_FAILED) and nothing outside changed; a harmless entry in the same run is
+   restored.  The hypotheses of (d) hold of this state. *)
+Example C04_classic_attack_refused :
+  let fl := SECF + (EXTRACT_PERM + EXTRACT_TIME) in
+  let st := st_world 18 classic_pre in
+  let es := [mkEntry T_FILE s_xevil [] 420 (Some 1%Z) [101]; mkEntry T_FILE s_e [] 420 (Some 7%Z) [111;107]] in
+  let '(sts, st') := run_history fl st es in
+  sts = [(SFailed, SOk); (SOk, SOk)] /\
+  prune [n_target] (root (st_fs st')) = prune [n_target] (root (st_fs st)) /\
+  get [n_target; s_e] (root (st_fs st')) = Some (Leaf false 10 [111;107] 420 7%Z) /\
+  st_cwd st' = cwd0 /\ st_umask st' = 18.
+Proof. vm_compute. repeat split; reflexivity. Qed.
+
+Example C04_hypotheses_satisfiable : Inv [n_target] Oc (st_world 18 classic_pre) /\ secure (SECF + EXTRACT_UNLINK).
+Proof.
+  split; [|unfold secure; repeat split; reflexivity].
+  constructor; [reflexivity|]. constructor.
+  - vm_compute. now eexists _, _, _.
+  - cbv. repeat split; auto.
+  - intros n Hn. vm_compute in Hn. injection Hn as <-. cbv. auto.
+  - intros i Hi. exact Hi.
+Qed.
